@@ -222,6 +222,12 @@ def fam_faults(seed, big):
                             "stdout": b, "stderr": c, "closed_std": closed, "cwd": hx(SP),
                             "fault": {"kind": kind, "nth": 1, "side": 1, "errno": er}})
                 i += 1
+    # the parent is held up right after fork(): the child has long exec'ed when the parent goes on
+    for (a, b, c) in (("none", "none", "none"), ("pipe", "pipe", "pipe")):
+        for extra in ({"setpgid": True}, {"setpgid": True, "cwd": hx(SP)}, {}, {"detached": True, "setpgid": True}):
+            out.append(dict({"id": "f%d-parent-late" % i, "class": "parent-late", "argv": vargv(), "stdin": a, "stdout": b,
+                             "stderr": c, "parent_delay_us": 60000}, **extra))
+            i += 1
     # natural failures
     noexec = os.path.join(SP, "noexec")
     with open(noexec, "w") as f:
